@@ -279,6 +279,9 @@ Record ccfg := mkCcfg {
 Definition unmap (raw : bytes) : bytes :=
   if (zlen raw =? 16) && bytes_eqb (firstn 12 raw) [0;0;0;0;0;0;0;0;0;0;255;255] then skipn 12 raw else raw.
 
+(* slayers.T4Ip = 0, slayers.T16Ip = 3: the address types of IP hosts *)
+Definition ip_type (t : Z) : bool := (t =? 0) || (t =? 3).
+
 (* compareIPs(x, y) == 0 *)
 Definition same_ip (x y : bytes) : bool := host_ok x && host_ok y && bytes_eqb (unmap x) (unmap y).
 
@@ -316,8 +319,10 @@ Definition client_check (c : ccfg) (q : rx) (ntpc : Z) : check :=
   | Udp sport dport len payload =>
       let h := rx_hdr q in
       if rx_buflen q <? len then Retry 2
-      else if negb ((h_src_ia h =? c_remote_ia c) && same_ip (h_src_raw h) (c_remote_host c)
-                    && (h_dst_ia h =? c_local_ia c) && same_ip (h_dst_raw h) (c_local_host c)) then Retry 2
+      (* validSrc / validDst: ISD-AS, an IP address type (fix: commit 702ebdb; before it a service
+         address with the host's bytes passed) and the host's address *)
+      else if negb ((h_src_ia h =? c_remote_ia c) && ip_type (h_src_type h) && same_ip (h_src_raw h) (c_remote_host c)
+                    && (h_dst_ia h =? c_local_ia c) && ip_type (h_dst_type h) && same_ip (h_dst_raw h) (c_local_host c)) then Retry 2
       else match client_auth c q with
       | AuthBad => Retry 3
       | a =>
